@@ -91,6 +91,16 @@ static void run_scenario(const mj::Value& c, long n, bool log = true) {
         else if (scn == "parse-assign") { json j = json::parse("[\"an existing long string value 0123456789\"]"); json j0 = j; window(n, r, [&] { j = json::parse(text); }); r.usable = usable(j); }
         else if (scn == "copy") { json a = json::parse(text); std::optional<json> res; window(n, r, [&] { res.emplace(a); }); r.usable = usable(a); }
         else if (scn == "copy-assign") { json a = json::parse(text); json b = json::parse("{\"x\":[1,2,3],\"y\":\"an existing long string value 0123456789\"}"); window(n, r, [&] { b = a; }); r.usable = usable(a) && usable(b); }
+        else if (scn == "assign-kind") {
+            auto mkk = [&](const std::string& k) -> json {
+                if (k == "sstr") return json("short"); if (k == "lstr") return json("a long string value 0123456789 abcdefghij");
+                if (k == "bstr") return json(byte_string_arg, std::vector<uint8_t>(40, 7)); if (k == "bstr2") return json(byte_string_arg, std::vector<uint8_t>(90, 9), semantic_tag::base64);
+                if (k == "arr") return json::parse("[1,\"a long string value 0123456789\",[2]]"); if (k == "obj") return json::parse("{\"k\":\"a long string value 0123456789\",\"l\":[1]}");
+                if (k == "tagged") return json("123456789012345678901234567890", semantic_tag::bigint); return json(42); };
+            const std::string pair = c["doc"].str(); size_t p = pair.find("<-"); json dst = mkk(pair.substr(0, p)); json src = mkk(pair.substr(p + 2)); json src0 = src; json dst2 = dst;
+            std::optional<json> t;
+            window(n, r, [&] { dst = src; t.emplace(src); dst2 = std::move(*t); });
+            r.usable = usable(dst) && usable(src) && usable(dst2) && (src == src0); }
         else if (scn == "move-assign") { json a = json::parse(text); json b = json::parse("[1,2,3]"); std::optional<json> t; window(n, r, [&] { t.emplace(a); b = std::move(*t); }); r.usable = usable(a) && usable(b); }
         else if (scn == "push_back") { json a = json::parse(text); json arr(json_array_arg); window(n, r, [&] { for (int i = 0; i < 9; ++i) arr.push_back(a); }); r.usable = usable(arr) && usable(a); }
         else if (scn == "insert_or_assign") { json a = json::parse(text); json o(json_object_arg); window(n, r, [&] { for (int i = 0; i < 6; ++i) o.insert_or_assign("a long member name number " + std::to_string(i), a); o.insert_or_assign("a long member name number 2", a); }); r.usable = usable(o) && usable(a); }
